@@ -53,7 +53,27 @@ Definition irule_of_name (n : str) : option irule :=
   else if is_name n "emphasis" then Some IEmphasis else if is_name n "link" then Some ILink
   else if is_name n "auto_link" then Some IAutoLink else if is_name n "auto_email" then Some IAutoEmail
   else if is_name n "inline_html" then Some IInlineHtml else if is_name n "linebreak" then Some ILinebreak
-  else if is_name n "softbreak" then Some ISoftbreak else None.
+  else if is_name n "softbreak" then Some ISoftbreak
+  else if is_name n "strikethrough" then Some (IExt 0) else if is_name n "mark" then Some (IExt 1)
+  else if is_name n "insert" then Some (IExt 2) else if is_name n "superscript" then Some (IExt 3)
+  else if is_name n "subscript" then Some (IExt 4) else if is_name n "url_link" then Some (IExt 5) else None.
+
+(* the inline plugins of the model: formatting (strikethrough, mark, insert, superscript, subscript) and url *)
+Definition ext_kind (i : nat) : option ext :=
+  nth_error [XToEnd (z_of_string "strikethrough") rx_plugins_formatting__STRIKE_END;
+             XToEnd (z_of_string "mark") rx_plugins_formatting__MARK_END;
+             XToEnd (z_of_string "insert") rx_plugins_formatting__INSERT_END;
+             XScript (z_of_string "superscript"); XScript (z_of_string "subscript"); XUrl] i.
+Definition ext_spec (i : nat) : rx :=
+  nth i [rx_inlinespec__strikethrough; rx_inlinespec__mark; rx_inlinespec__insert;
+         rx_plugins_formatting__SUPERSCRIPT_PATTERN; rx_plugins_formatting__SUBSCRIPT_PATTERN; rx_plugins_url__URL_LINK_PATTERN] RFail.
+Definition ext_template (name : str) : template :=
+  if is_name name "strikethrough" then tmpl_formatting_render_strikethrough
+  else if is_name name "mark" then tmpl_formatting_render_mark
+  else if is_name name "insert" then tmpl_formatting_render_insert
+  else if is_name name "superscript" then tmpl_formatting_render_superscript
+  else if is_name name "subscript" then tmpl_formatting_render_subscript
+  else tmpl_html_emphasis.
 
 Definition inline_spec (hard : bool) (r : irule) : rx :=
   match r with
@@ -63,6 +83,7 @@ Definition inline_spec (hard : bool) (r : irule) : rx :=
   | ILinebreak => if hard then rx_inline__HARD_LINEBREAK else rx_inline__linebreak
   | ISoftbreak => rx_inline__softbreak
   | IPrecAutoLink => rx_inline__prec_auto_link | IPrecInlineHtml => rx_inline__prec_inline_html
+  | IExt i => ext_spec i
   end.
 
 Definition emph_end (marker : str) : option rx :=
@@ -74,14 +95,16 @@ Definition emph_end (marker : str) : option rx :=
   else if is_name marker "___" then Some rx_inline_parser__EMPHASIS_END_RE_uuu
   else None.
 
-Definition inline_cfg (hard_wrap : bool) (refs : list (str * (str * option str))) : option icfg :=
-  let names := if hard_wrap then inline_rules_hw else inline_rules_std in
+(* px: with the six inline plugins of the model registered (in the order create_markdown registers them) *)
+Definition inline_cfg_x (px hard_wrap : bool) (refs : list (str * (str * option str))) : option icfg :=
+  let names := if px then (if hard_wrap then inline_rules_px_hw else inline_rules_px_std)
+               else (if hard_wrap then inline_rules_hw else inline_rules_std) in
   match opt_all (map irule_of_name names) with
   | None => None
   | Some rules =>
     Some {| c_uni := U;
             c_spec := inline_spec (if hard_wrap then inline_linebreak_is_hard_hw else inline_linebreak_is_hard_std);
-            c_rules := rules;
+            c_rules := rules; c_ext := ext_kind;
             c_square := rx_helpers__INLINE_SQUARE_BRACKET_RE; c_label := rx_helpers__INLINE_LINK_LABEL_RE;
             c_bracket_start := rx_helpers__LINK_BRACKET_START; c_bracket := rx_helpers__LINK_BRACKET_RE;
             c_href_inline := rx_helpers__LINK_HREF_INLINE_RE; c_title := rx_helpers__LINK_TITLE_RE;
@@ -92,6 +115,7 @@ Definition inline_cfg (hard_wrap : bool) (refs : list (str * (str * option str))
             c_codespan_text := codespan_text T;
             c_refs := refs |}
   end.
+Definition inline_cfg (hard_wrap : bool) (refs : list (str * (str * option str))) : option icfg := inline_cfg_x false hard_wrap refs.
 
 Fixpoint enc_tok (t : tok) : pval :=
   match t with
@@ -106,6 +130,7 @@ Fixpoint enc_tok (t : tok) : pval :=
     VList [VStr (z_of_string (if img then "image" else "link")); VList (map enc_tok ch); VStr url;
            match title with Some t => VStr t | None => VNone end; VBool tk;
            match ref with Some (k, l) => VList [VStr k; VStr l] | None => VNone end]
+  | TExt name ch => VList [VStr name; VList (map enc_tok ch)]
   end.
 
 (* ---- block parser instance ---- *)
@@ -192,20 +217,23 @@ Fixpoint enc_node (n : node) : pval :=
   end.
 
 (* the inline configuration is total once the rule names are known *)
-Definition inline_cfg_or (hw : bool) (refs : list (str * (str * option str))) (dflt : icfg) : icfg :=
-  match inline_cfg hw refs with Some c => c | None => dflt end.
+Definition inline_cfg_or (px hw : bool) (refs : list (str * (str * option str))) (dflt : icfg) : icfg :=
+  match inline_cfg_x px hw refs with Some c => c | None => dflt end.
 
-Definition core_doc_parse (hw : bool) (s : str) : res (list node) :=
-  match block_cfg, inline_cfg hw [] with
-  | Some CB, Some d => doc_parse CB (fun rf => inline_cfg_or hw rf d) (run_ops parse_norm_ops) s
+(* create_markdown(renderer=None, hard_wrap=hw, plugins=[the six inline plugins] if px else [])(s) *)
+Definition doc_parse_x (px hw : bool) (s : str) : res (list node) :=
+  match block_cfg, inline_cfg_x px hw [] with
+  | Some CB, Some d => doc_parse CB (fun rf => inline_cfg_or px hw rf d) (run_ops parse_norm_ops) s
   | _, _ => Exn
   end.
+Definition core_doc_parse (hw : bool) (s : str) : res (list node) := doc_parse_x false hw s.
 
 (* create_markdown(escape=..., hard_wrap=...)(s): the core configuration with the HTML renderer *)
 Definition html_env (esc : bool) : renv :=
   {| r_escape := esc; r_safe_url := safe_url harmful_protocols good_data_protocols escape_ops; r_tables := T |}.
-Definition core_html (esc hw : bool) (s : str) : res str :=
-  do ast <- core_doc_parse hw s; Ok (html_doc (html_env esc) escape_ops ast).
+Definition html_x (px esc hw : bool) (s : str) : res str :=
+  do ast <- doc_parse_x px hw s; Ok (html_doc (html_env esc) escape_ops ext_template ast).
+Definition core_html (esc hw : bool) (s : str) : res str := html_x false esc hw s.
 
 Definition run_named (name : str) (arg : pval) : pval :=
   if is_name name "norm" then
@@ -348,12 +376,12 @@ Definition run_named (name : str) (arg : pval) : pval :=
     | _ => VErr "arg" end
   else if is_name name "inline" then
     match arg with
-    | VList [VStr s; VBool hw; VList refs] =>
+    | VList [VStr s; VBool hw; VList refs; VBool px] =>
       let rl := flat_map (fun v => match v with
                                    | VList [VStr k; VStr u; VStr t] => [(k, (u, Some t))]
                                    | VList [VStr k; VStr u; VNone] => [(k, (u, None))]
                                    | _ => [] end) refs in
-      match inline_cfg hw rl with
+      match inline_cfg_x px hw rl with
       | None => VErr "unknown inline rule"
       | Some C => match inline_parse C s with
                   | Ok toks => VList (map enc_tok toks)
@@ -379,8 +407,8 @@ Definition run_named (name : str) (arg : pval) : pval :=
     | _ => VErr "arg" end
   else if is_name name "doc" then
     match arg with
-    | VList [VStr s; VBool hw] =>
-      match core_doc_parse hw s with
+    | VList [VStr s; VBool hw; VBool px] =>
+      match doc_parse_x px hw s with
       | Ok ns => VList (map enc_node ns)
       | Exn => VErr "exception"
       | Fuel => VErr "fuel"
@@ -388,8 +416,8 @@ Definition run_named (name : str) (arg : pval) : pval :=
     | _ => VErr "arg" end
   else if is_name name "html" then
     match arg with
-    | VList [VStr s; VBool esc; VBool hw] =>
-      match core_html esc hw s with
+    | VList [VStr s; VBool esc; VBool hw; VBool px] =>
+      match html_x px esc hw s with
       | Ok out => VStr out
       | Exn => VErr "exception"
       | Fuel => VErr "fuel"
